@@ -349,7 +349,7 @@ func relatedFormulas(s *cases.Set, r *cq.RNG, i int) {
 		}
 		return append(b, byte(dn), byte(dn>>8))
 	}
-	ja := framefmt.JoinFrame(r, 1)
+	ja := joinFrame(r, 1)
 	ja.MACPayload.(*lorawan.JoinAcceptPayload).DLSettings.OptNeg = i%2 == 0
 	body, err := ja.MACPayload.MarshalBinary()
 	if err == nil {
@@ -380,7 +380,7 @@ func relatedFormulas(s *cases.Set, r *cq.RNG, i int) {
 			downJoin(s, r, f, ty, je, dn, k, 3, "related-formula-join-accept:"+cd.name)
 		}
 	}
-	up := framefmt.JoinFrame(r, []int{0, 2, 3, 4}[i%4])
+	up := joinFrame(r, []int{0, 2, 3, 4}[i%4])
 	if ub, err := up.MACPayload.MarshalBinary(); err == nil {
 		mh, _ := up.MHDR.MarshalBinary()
 		msg := append(append([]byte{}, mh...), ub...)
@@ -405,7 +405,7 @@ func relatedFormulas(s *cases.Set, r *cq.RNG, i int) {
 // are a window into a receive buffer (spare capacity, sentinel bytes behind). Set/ValidateUplinkJoinMIC must leave
 // the buffer alone, give the same verdict a second time, and compute the MIC of the typed frame with these bytes.
 func opaqueJoin(s *cases.Set, r *cq.RNG, i int) {
-	typed := framefmt.JoinFrame(r, []int{0, 2, 3, 4}[i%4])
+	typed := joinFrame(r, []int{0, 2, 3, 4}[i%4])
 	b, err := typed.MACPayload.MarshalBinary()
 	if err != nil {
 		return
@@ -438,7 +438,7 @@ func opaqueJoin(s *cases.Set, r *cq.RNG, i int) {
 	}
 	copy(buf, snap)
 	// the same window through DecryptJoinAcceptPayload (ciphertext held in a receive buffer)
-	ja := framefmt.JoinFrame(r, 1)
+	ja := joinFrame(r, 1)
 	if encrypt(&ja, k) != cq.Err {
 		if dp, ok := ja.MACPayload.(*lorawan.DataPayload); ok {
 			buf2 := make([]byte, len(dp.Bytes)+spare+8)
@@ -508,7 +508,7 @@ func specialMICs(s *cases.Set, r *cq.RNG, rounds int) {
 				}
 			}
 			for kind := 0; kind < 3; kind++ { // the three CFList shapes are drawn by JoinFrame
-				ja := framefmt.JoinFrame(r, 1)
+				ja := joinFrame(r, 1)
 				ja.MIC = want
 				ek := key(r)
 				encCases(s, ja, ek, "special-mic-"+name)
@@ -524,19 +524,19 @@ func specialMICs(s *cases.Set, r *cq.RNG, rounds int) {
 func badFrame(r *cq.RNG, which int) lorawan.PHYPayload {
 	switch which % 4 {
 	case 0: // rejoin-request type 0/2 payload carrying RejoinType 1
-		p := framefmt.JoinFrame(r, 2)
+		p := joinFrame(r, 2)
 		p.MACPayload.(*lorawan.RejoinRequestType02Payload).RejoinType = lorawan.RejoinRequestType1
 		return p
 	case 1: // rejoin-request type 1 payload carrying RejoinType 0
-		p := framefmt.JoinFrame(r, 4)
+		p := joinFrame(r, 4)
 		p.MACPayload.(*lorawan.RejoinRequestType1Payload).RejoinType = lorawan.RejoinRequestType0
 		return p
 	case 2: // join-accept with a JoinNonce that does not fit 24 bits
-		p := framefmt.JoinFrame(r, 1)
+		p := joinFrame(r, 1)
 		p.MACPayload.(*lorawan.JoinAcceptPayload).JoinNonce = lorawan.JoinNonce(1<<24 + r.Intn(100))
 		return p
 	default:
-		p := framefmt.JoinFrame(r, 0)
+		p := joinFrame(r, 0)
 		p.MACPayload = nil
 		return p
 	}
@@ -550,8 +550,8 @@ func failThenValid(s *cases.Set, r *cq.RNG, i int) {
 	defer func() { quiet = false }()
 	k := key(r)
 	bad := badFrame(r, i)
-	good := framefmt.JoinFrame(r, []int{0, 2, 3, 4}[(i/4)%4])
-	ja := framefmt.JoinFrame(r, 1)
+	good := joinFrame(r, []int{0, 2, 3, 4}[(i/4)%4])
+	ja := joinFrame(r, 1)
 	je, dn := eui(r), lorawan.DevNonce(r.Intn(65536))
 	switch (i / 16) % 3 {
 	case 0:
@@ -572,13 +572,27 @@ func failThenValid(s *cases.Set, r *cq.RNG, i int) {
 
 var joinTypes = []lorawan.JoinType{lorawan.JoinRequestType, lorawan.RejoinRequestType0, lorawan.RejoinRequestType1, lorawan.RejoinRequestType2}
 
+// dataFrame / joinFrame: the framefmt generators with the MHDR Major field drawn from all four values (the library
+// accepts any; the MHDR octet enters every MIC)
+func dataFrame(r *cq.RNG, o framefmt.Opt) lorawan.PHYPayload {
+	p := framefmt.DataFrame(r, o)
+	p.MHDR.Major = lorawan.Major(r.Intn(4))
+	return p
+}
+
+func joinFrame(r *cq.RNG, kind int) lorawan.PHYPayload {
+	p := framefmt.JoinFrame(r, kind)
+	p.MHDR.Major = lorawan.Major(r.Intn(4))
+	return p
+}
+
 func main() {
 	log.SetOutput(io.Discard)
 	dir, seed, thorough := cases.Args()
 	r := cq.NewRNG(seed)
 	nr = cq.NewRNG(seed ^ 0x9e3779b97f4a7c15)
 	s := cases.New("C04", dir, "LW.Corr.C04",
-		"RFC 4493 examples and the FIPS-197 C.1 decryption first; corpus: join-accept with channel-mask CFList [m0; 0] (C04-1). Join-request and rejoin-request types 0, 1, 2 (palindromic EUIs in 25%), carried MIC valid / random / bit-flipped; join-accept frames with OptNeg both ways, CFList absent / 5 channels / 1..6 masks, JoinNonce 0 and 2^24-1 boundaries, all four JoinReqType values cycled, palindromic and non-palindromic JoinEUI, DevNonce boundaries; EncryptJoinAcceptPayload (device-side aes.Encrypt check in Go and in Coq), Decrypt with the same and with another key, malformed inputs (wrong payload types, lengths not 16/32, JoinNonce >= 2^24). Special MIC values: rejoin-requests type 0/2 CONSTRUCTED (internal/micforge: the single padded CMAC block solved from the tag, ~2^21 trials for pad byte, MHDR and RejoinType) so that their correct MIC is 00000000, ffffffff, 00000001 or the MIC of the previous case; join-accepts carrying these four MIC values through Encrypt / Decrypt (round trip) and Set/Validate. Related formulas: join frames carrying a MIC that is correct under a related formula (own CMAC: 1.0 form and 1.1 form whatever OptNeg says, other key, other JoinReqType, JoinEUI reversed, DevNonce + 1 / byte-swapped, without MHDR, MHDR first; for requests: prefixed, without MHDR, MHDR twice, other key) - the model decides each verdict. Opaque payloads: join / rejoin frames held as *DataPayload over a window of a receive buffer with spare capacity and sentinels (buffer unchanged, same verdict twice, MIC = typed-frame MIC), ciphertext windows through DecryptJoinAcceptPayload. After every Validate* call the frame must print and marshal as before. Every MIC call is also repeated from 8 goroutines at once. History: unrelated library calls (internal/noise) before every compared call; fail-then-valid families run back to back (a failing Set/Validate/Encrypt call - rejoin payload with the wrong RejoinType, JoinNonce >= 2^24, nil payload - immediately followed by a valid uplink join MIC, join-accept MIC and encryption, and the first valid call again), each compared with model and specification; every MIC call is repeated three times later in the process (reverse, same, shuffled order) and must give its first result. Distinct by construction (random keys) except the repeated calls.")
+		"RFC 4493 examples and the FIPS-197 C.1 decryption first; corpus: join-accept with channel-mask CFList [m0; 0] (C04-1). Join-request and rejoin-request types 0, 1, 2 (palindromic EUIs in 25%), carried MIC valid / random / bit-flipped; join-accept frames with OptNeg both ways, CFList absent / 5 channels / 1..6 masks, JoinNonce 0 and 2^24-1 boundaries, all four JoinReqType values cycled, palindromic and non-palindromic JoinEUI, DevNonce boundaries; EncryptJoinAcceptPayload (device-side aes.Encrypt check in Go and in Coq), Decrypt with the same and with another key, malformed inputs (wrong payload types, lengths not 16/32, JoinNonce >= 2^24). Special MIC values: rejoin-requests type 0/2 CONSTRUCTED (internal/micforge: the single padded CMAC block solved from the tag, ~2^21 trials for pad byte, MHDR and RejoinType) so that their correct MIC is 00000000, ffffffff, 00000001 or the MIC of the previous case; join-accepts carrying these four MIC values through Encrypt / Decrypt (round trip) and Set/Validate. MHDR Major drawn from 0..3 in every generated frame. Related formulas: join frames carrying a MIC that is correct under a related formula (own CMAC: 1.0 form and 1.1 form whatever OptNeg says, other key, other JoinReqType, JoinEUI reversed, DevNonce + 1 / byte-swapped, without MHDR, MHDR first; for requests: prefixed, without MHDR, MHDR twice, other key) - the model decides each verdict. Opaque payloads: join / rejoin frames held as *DataPayload over a window of a receive buffer with spare capacity and sentinels (buffer unchanged, same verdict twice, MIC = typed-frame MIC), ciphertext windows through DecryptJoinAcceptPayload. After every Validate* call the frame must print and marshal as before. Every MIC call is also repeated from 8 goroutines at once. History: unrelated library calls (internal/noise) before every compared call; fail-then-valid families run back to back (a failing Set/Validate/Encrypt call - rejoin payload with the wrong RejoinType, JoinNonce >= 2^24, nil payload - immediately followed by a valid uplink join MIC, join-accept MIC and encryption, and the first valid call again), each compared with model and specification; every MIC call is repeated three times later in the process (reverse, same, shuffled order) and must give its first result. Distinct by construction (random keys) except the repeated calls.")
 	s.ShardSize = 150
 	n := 400
 	if thorough {
@@ -624,9 +638,9 @@ func main() {
 		how := i % 3
 		// uplink join MICs: join-request, rejoin 0, 2, 1
 		kindIdx := []int{0, 2, 3, 4}[i%4]
-		upJoin(s, r, framefmt.JoinFrame(r, kindIdx), key(r), how, fmt.Sprintf("up-join-kind%d", kindIdx))
+		upJoin(s, r, joinFrame(r, kindIdx), key(r), how, fmt.Sprintf("up-join-kind%d", kindIdx))
 		// join-accept MIC
-		p := framefmt.JoinFrame(r, 1)
+		p := joinFrame(r, 1)
 		ja := p.MACPayload.(*lorawan.JoinAcceptPayload)
 		ja.DLSettings.OptNeg = (i/2)%2 == 0
 		ty := joinTypes[i%4]
@@ -643,7 +657,7 @@ func main() {
 		k := key(r)
 		downJoin(s, r, p, ty, je, dn, k, how, fmt.Sprintf("down-join-optneg=%v", ja.DLSettings.OptNeg))
 		// encryption of a frame that carries its MIC
-		p2 := framefmt.JoinFrame(r, 1)
+		p2 := joinFrame(r, 1)
 		if err := p2.SetDownlinkJoinMIC(ty, je, dn, k); err != nil {
 			copy(p2.MIC[:], r.Bytes(4))
 		}
@@ -651,13 +665,13 @@ func main() {
 		encCases(s, p2, ek, "encrypt")
 		// decryption with another key / of random ciphertext
 		if i%3 == 0 {
-			p3 := framefmt.JoinFrame(r, 1)
+			p3 := joinFrame(r, 1)
 			q := p3
 			if encrypt(&q, ek) != cq.Err {
 				decCase(s, q, key(r), "decrypt-other-key")
 			}
 			l := []int{12, 28, 12, 28, 0, 11, 13, 27, 29, 44}[r.Intn(10)]
-			rnd := lorawan.PHYPayload{MHDR: lorawan.MHDR{MType: lorawan.JoinAccept, Major: lorawan.LoRaWANR1}, MACPayload: &lorawan.DataPayload{Bytes: r.Bytes(l)}}
+			rnd := lorawan.PHYPayload{MHDR: lorawan.MHDR{MType: lorawan.JoinAccept, Major: lorawan.Major(r.Intn(4))}, MACPayload: &lorawan.DataPayload{Bytes: r.Bytes(l)}}
 			copy(rnd.MIC[:], r.Bytes(4))
 			decCase(s, rnd, key(r), "decrypt-random")
 		}
@@ -671,7 +685,7 @@ func main() {
 			opaqueJoin(s, r, i/8)
 		}
 		if i%5 == 0 { // malformed
-			m := framefmt.JoinFrame(r, r.Intn(5))
+			m := joinFrame(r, r.Intn(5))
 			switch r.Intn(4) {
 			case 0:
 				m.MACPayload = nil
